@@ -37,7 +37,8 @@ def gen_lineage(r):
         # one rule referred to from every kind of expression; the derived grammars override it
         s0, g0 = spec.kind_matrix_root(r, ignore=None if ig0 == 'none' else ig0)
     else:
-        s0, g0 = spec.gen_root(r, True, hook_p=0.0, ignore=ig0, class_start=False, max_rep_lo=1)
+        s0, g0 = spec.gen_root(r, True, hook_p=0.0, ignore=ig0, class_start=False, max_rep_lo=1,
+                               start_spelling=r.choice(['start'] * 8 + ['Start', 'START']))
     infos = [C.ModInfo(0, nm(0), None, s0, g0)]
     n_levels = r.choice([2, 2, 3, 3, 3])
     prev = infos[0]
@@ -49,7 +50,8 @@ def gen_lineage(r):
             sup = {n for it in prev.spec['items'] for k, n in spec.refs_in_item(it) if k == 'super'}
             own = {it['name'] for it in prev.spec['items'] if it['k'] in ('rule', 'class')}
             force = tuple(force) + tuple(sorted(sup - own))
-        s, g = spec.gen_child(r, prev.gen, hook_p=0.0, ignore=ig, force=force, override_ignore_p=0.25)
+        s, g = spec.gen_child(r, prev.gen, hook_p=0.0, ignore=ig, force=force, override_ignore_p=0.25,
+                              respell_start_p=0.3)
         m = C.ModInfo(i, nm(i), prev.id, s, g, parent=prev)
         infos.append(m)
         prev = m
